@@ -18,16 +18,6 @@ static abuf *emit_range_comparison_code(asn1cnst_range_t *range,
                                           asn1c_integer_t natural_stop);
 static int native_long_sign(arg_t *arg, asn1cnst_range_t *r);	/* -1, 0, 1 */
 
-static int
-ulong_optimization(arg_t *arg, asn1p_expr_type_e etype, asn1cnst_range_t *r_size,
-						asn1cnst_range_t *r_value)
-{
-	return (!r_size && r_value
-		&& (etype == ASN_BASIC_INTEGER
-		|| etype == ASN_BASIC_ENUMERATED)
-		&& native_long_sign(arg, r_value) == 0);
-}
-
 int
 asn1c_emit_constraint_checking_code(arg_t *arg) {
 	asn1cnst_range_t *r_size;
@@ -37,7 +27,6 @@ asn1c_emit_constraint_checking_code(arg_t *arg) {
 	asn1p_constraint_t *ct;
 	int alphabet_table_compiled;
 	int produce_st = 0;
-	int ulong_optimize = 0;
 	int value_unsigned = 0;
 	int ret = 0;
 
@@ -110,11 +99,8 @@ asn1c_emit_constraint_checking_code(arg_t *arg) {
 			case ASN_BASIC_INTEGER:
 			case ASN_BASIC_ENUMERATED:
 				if(native_long_sign(arg, r_value) >= 0) {
-					ulong_optimize = ulong_optimization(arg, etype, r_size, r_value);
-					if(!ulong_optimize) {
-						value_unsigned = 1;
-						OUT("unsigned long value;\n");
-					}
+					value_unsigned = 1;
+					OUT("unsigned long value;\n");
 				} else {
 					OUT("long value;\n");
 				}
@@ -145,7 +131,7 @@ asn1c_emit_constraint_checking_code(arg_t *arg) {
 	OUT("}\n");
 	OUT("\n");
 
-	if((r_value) && (!ulong_optimize))
+	if(r_value)
 		emit_value_determination_code(arg, etype, r_value);
 	if(r_size)
 		emit_size_determination_code(arg, etype);
@@ -157,16 +143,6 @@ asn1c_emit_constraint_checking_code(arg_t *arg) {
 		(asn1c_emit_constraint_tables(arg, r_size?1:0) == 1);
 	REDIR(OT_CODE);
 	INDENT(+1);
-
-	/*
-	 * Optimization for unsigned longs.
-	 */
-	if(ulong_optimize) {
-		OUT("\n");
-		OUT("/* Constraint check succeeded */\n");
-		OUT("return 0;\n");
-		goto end;
-	}
 
 	/*
 	 * Here is an if() {} else {} consrtaint checking code.
